@@ -6,4 +6,5 @@ INVARIANT InScope
 INVARIANT BetheExact
 INVARIANT BeliefsExact
 INVARIANT DefsAgree
+INVARIANT FastAgrees
 CHECK_DEADLOCK FALSE
